@@ -32,14 +32,6 @@ Proof.
   specialize (H _ Hl). apply Bool.negb_true_iff in H. exact H.
 Qed.
 
-Definition ids_ok_b (s : state) : bool := forallb (fun kv => id_okb (fst kv)) (st_facts s).
-Lemma ids_ok_b_ok s : ids_ok_b s = true -> ids_ok s.
-Proof.
-  intros H j Hj. destruct (alookup j (st_facts s)) as [f|] eqn:E; [|congruence].
-  apply alookup_In in E. unfold ids_ok_b in H. rewrite forallb_forall in H. specialize (H _ E).
-  apply id_okb_ok. exact H.
-Qed.
-
 (** concrete data *)
 Definition c_none : ctx := mkCtx "" "".
 Definition c_bad : ctx := mkCtx "bad" "bad".
@@ -397,15 +389,13 @@ Definition casc_ops : list (sop * Z) :=
 Example cascade_closure_history_example :
   forall k hooks,
     let s := reachable k hooks None casc_ops in
-    StateSpec.no_expired s 10 /\ ids_not_varlike s /\ is_var "a" = false /\ ids_not_sentinel s /\
+    StateSpec.no_expired s 10 /\
     map fst (st_facts s) = ["a"; "b"; "c"; "d"; "e"; "f"; "g"] /\
     exists s', st_Rem s "a" 10 = (s', Ok true) /\
                map fst (st_facts s') = ["e"; "f"; "g"] /\ map fst (st_store s') = ["e"; "f"; "g"].
 Proof.
   intros k hooks s.
-  assert (Hok : ids_ok s) by (apply ids_ok_b_ok; destruct k, hooks; vm_compute; reflexivity).
   split; [apply no_expired_b_ok; destruct k, hooks; vm_compute; reflexivity|].
-  split; [intros j Hj; apply (Hok j Hj)|]. split; [reflexivity|]. split; [intros j Hj; apply (Hok j Hj)|].
   split; [destruct k, hooks; vm_compute; reflexivity|].
   exists (fst (st_Rem s "a" 10)). split; [unfold s; destruct k, hooks; vm_compute; reflexivity|].
   unfold s; destruct k, hooks; vm_compute; split; reflexivity.
@@ -429,16 +419,18 @@ Proof.
   destruct k; vm_compute; split; (discriminate || reflexivity).
 Qed.
 
-(** [is_var id = false] cannot be dropped (D14): the removal of a missing id that looks
-    like a variable deletes every fact that has a deleteWith, in both state
-    kinds, although the closure of that id is the id alone. *)
-Lemma cascade_varlike_id_history_counterexample :
+(** D14 (repaired), on the history of the former counterexample: the removal
+    of a missing id that looks like a variable deletes nothing, in both state
+    kinds (its closure is the id alone; before the repair it deleted every
+    fact that has a deleteWith). *)
+Example cascade_varlike_id_history_example :
   forall k,
     let s := reachable k false None [(SAdd "keep" (dwf ["other"] 1) "f" None, 1); (SAdd "k2" (fact_n 1) "f" None, 1)] in
     (forall j, Clo s "?zzz" j -> j = "?zzz") /\
-    st_fail s = None /\ StateSpec.no_expired s 10 /\ ids_not_varlike s /\ ids_not_sentinel s /\
+    st_fail s = None /\ StateSpec.no_expired s 10 /\
     snd (st_Rem s "?zzz" 10) = Ok false /\
-    alookup "keep" (st_facts s) <> None /\ alookup "keep" (st_facts (fst (st_Rem s "?zzz" 10))) = None.
+    st_facts (fst (st_Rem s "?zzz" 10)) = st_facts s /\ st_store (fst (st_Rem s "?zzz" 10)) = st_store s /\
+    alookup "keep" (st_facts (fst (st_Rem s "?zzz" 10))) <> None.
 Proof.
   intros k s. split.
   - intros j H. induction H as [|x j fact H IH Hl Hn]; [reflexivity|]. subst x. exfalso.
@@ -447,9 +439,35 @@ Proof.
     destruct (String.eqb j "k2"); [injection Hl as <-; vm_compute in Hn; discriminate|].
     destruct (String.eqb j "keep"); [injection Hl as <-; vm_compute in Hn; discriminate|discriminate].
   - split; [destruct k; reflexivity|]. split; [apply no_expired_b_ok; destruct k; vm_compute; reflexivity|].
-    assert (Hok : ids_ok s) by (apply ids_ok_b_ok; destruct k; vm_compute; reflexivity).
-    split; [intros j Hj; apply (Hok j Hj)|]. split; [intros j Hj; apply (Hok j Hj)|].
     destruct k; vm_compute; repeat split; discriminate.
+Qed.
+
+(** ... and with stored ids that look like variables: the same history, then
+    a fact stored under "?zzz", "dep" that names "?zzz", "dep2" that names
+    "dep", and "?w" that names "?other".  Removing "?zzz" deletes "?zzz",
+    "dep" and "dep2" (the literal closure) and nothing else, in memory and
+    in the storage, in both state kinds, with or without the hooks. *)
+Definition varlike_ops : list (sop * Z) :=
+  [(SAdd "keep" (dwf ["other"] 1) "f" None, 1); (SAdd "k2" (fact_n 1) "f" None, 1);
+   (SAdd "?zzz" (fact_n 2) "f" None, 2); (SAdd "dep" (dwf ["k9"; "?zzz"] 3) "f" None, 3);
+   (SAdd "dep2" (dwf ["dep"] 4) "f" None, 4); (SAdd "?w" (dwf ["?other"] 5) "f" None, 5)].
+
+Example cascade_varlike_stored_ids_history_example :
+  forall k hooks,
+    let s := reachable k hooks None varlike_ops in
+    forallb op_plain varlike_ops = true /\ StateSpec.no_expired s 10 /\
+    map fst (st_facts s) = ["?w"; "?zzz"; "dep"; "dep2"; "k2"; "keep"] /\
+    snd (st_Rem s "?zzz" 10) = Ok true /\
+    map fst (st_facts (fst (st_Rem s "?zzz" 10))) = ["?w"; "k2"; "keep"] /\
+    map fst (st_store (fst (st_Rem s "?zzz" 10))) = ["?w"; "k2"; "keep"] /\
+    (* a missing variable-looking id with a literal dependent *)
+    snd (st_Rem s "?other" 10) = (if hooks then Err "notfound" else Ok false) /\
+    map fst (st_facts (fst (st_Rem s "?other" 10))) =
+      (if hooks then ["?w"; "?zzz"; "dep"; "dep2"; "k2"; "keep"] else ["?zzz"; "dep"; "dep2"; "k2"; "keep"]).
+Proof.
+  intros k hooks s. split; [vm_compute; reflexivity|].
+  split; [apply no_expired_b_ok; destruct k, hooks; vm_compute; reflexivity|].
+  unfold s; destruct k, hooks; vm_compute; repeat split; reflexivity.
 Qed.
 
 (** * C. C02 *)
